@@ -363,7 +363,7 @@ def errconv_line(c, obs):
 
 class C02(Prop):
     id = 'C02'
-    lean_modules = ['RSocketModel.Props.C02', 'RSocketModel.Props.C02Builders', 'RSocketModel.Props.C02Errors']
+    lean_modules = ['RSocketModel.Props.C02', 'RSocketModel.Props.C02Builders', 'RSocketModel.Props.C02Errors', 'RSocketModel.Props.C02Source']
     technique = 'Lean 4 proof (per-constructor round-trip over a front-consuming decoder mirroring unpack_from/slice semantics; frame builders regenerated from the source AST by a translator and proved equal to the model) + differential correspondence on both backends'
     level_text = ('c02_decode_encode (decode(encode f) = canon f for every legal value of all 14 types), c02_reencode, c02_partial_write, '
                   'c02_length_prefix_exact, c02_metadata_push_nonzero_ignored are kernel-checked; c02_constants ties the model literals to the regenerated '
